@@ -248,15 +248,25 @@ def _work(spec):
     # KF4: on a conflict-free table of a grammar with a derivation cycle the LR driver can reduce for ever without consuming input.
     # Such grammars (cyclic, reference table of the same mode conflict-free) run in a batch of their own with a 10 s CPU watchdog
     # per grammar instead of the 600 s one, so the known finding costs seconds, not twenty minutes
-    risky = []
+    # Cyclic grammars whose reference table does have conflicts get the same short watchdog, but a hang there is an ordinary
+    # hang violation (seed C13-k: a conflict that is no longer reported lets the driver loop on them, 600 s apiece otherwise)
+    risky, risky2 = [], []
     for k, (nnt, nt, rules, prefix, inputs, maxt, longs) in enumerate(metas):
-        if cyclic(rules, nnt) and lr.build(rules, nnt, 0, bool(prefix), [("t", i) for i in range(1, max(maxt, 1) + 1)])["conflicts"] == 0:
-            risky.append(k)
+        if cyclic(rules, nnt):
+            if lr.build(rules, nnt, 0, bool(prefix), [("t", i) for i in range(1, max(maxt, 1) + 1)])["conflicts"] == 0:
+                risky.append(k)
+            else:
+                risky2.append(k)
     outs = [None] * len(cases)
-    normal = [k for k in range(len(cases)) if k not in set(risky)]
+    normal = [k for k in range(len(cases)) if k not in set(risky) | set(risky2)]
     res_n, _ = common.run_batch([cases[k] for k in normal])
     for k, o in zip(normal, res_n):
         outs[k] = o
+    if risky2:
+        res_c, _ = common.run_batch([cases[k] for k in risky2], case_cpu=10)
+        for k, o in zip(risky2, res_c):
+            outs[k] = o
+            part["stats"]["cyclic-grammars-with-reference-conflict"] += 1
     if risky:
         res_r, _ = common.run_batch([cases[k] for k in risky], case_cpu=10)
         for k, o in zip(risky, res_r):
